@@ -13,6 +13,7 @@ import (
 	"path/filepath"
 	"reflect"
 	"runtime"
+	"runtime/debug"
 
 	"github.com/ontio/ontology/common"
 	vbft "github.com/ontio/ontology/consensus/vbft"
@@ -214,6 +215,7 @@ func main() {
 		childMain(p)
 		return
 	}
+	debug.SetGCPercent(400) // allocation-heavy code under test (JSON hashing); fewer GC cycles
 	r := vf.NewRun("C29", "exploration",
 		"chain configs from the real GenesisChainConfig (N 4..40, C 1..(N-1)/3, K=N, L=K*2..16, 8 stake shapes, contiguous/scattered peer indices) plus hand-made valid tables (single peer, two peers, exactly 3C distinct, very short, >512 entries); per config a list of VRF seeds (zero, all-ones, block-derived, sparse, random); distinct by (config digest, vrf)")
 	rng := vf.NewRNG(vf.Seed())
